@@ -836,7 +836,7 @@ func init() {
 						continue
 					}
 					cl := call.Common().StaticCallee()
-					if cl == nil || !(strings.HasPrefix(cl.Name(), "percentEncode") || cl.Name() == "PercentEncodeString") {
+					if cl == nil || !(strings.HasPrefix(cl.Name(), "percentEncode") || cl.Name() == "PercentEncodeString" || isRuneEncoder(c, cl)) {
 						continue
 					}
 					// the *PercentEncodeSet argument
